@@ -334,6 +334,9 @@ def run_property(spec, tier='quick', seed=0, root='/repo', jobs=None):
             continue
         fn = hashlib.sha1(name.encode()).hexdigest()[:12] + '.json'
         path = os.path.join(replay_dir, fn)
+        rr_ = rec.get('replay')
+        if isinstance(rr_, dict) and rr_.get('expr') in rp.PRELUDE_OF and 'prelude' not in rr_:
+            rr_['prelude'], rr_['setup'] = rp.PRELUDE_OF[rr_['expr']]
         write_json(path, rec)
         final_viol.append((name, path, confirmed))
     # ---- open known findings whose failing class is excluded from the obligations (region): replay the witness on the real code ----
@@ -398,3 +401,32 @@ def run_property(spec, tier='quick', seed=0, root='/repo', jobs=None):
     print(f'{pid}: obligations={obligations} discharged={discharged} violations={len(final_viol)} '
           f'known={len(printed_known)} undecided={len(undecided)} wall={wall:.1f}s exit={status}')
     return status
+
+
+def replay_file(path, root):
+    """./check <ID> --replay <file>: re-run the recorded real-code witness on the current tree.
+    exit 1 if the recorded failing outcome is reproduced, 0 if the outcome differs (no longer fails), 2 if the file carries no executable witness."""
+    rec = json.load(open(path))
+    r = rec.get('replay') or {}
+    print(f"REPLAY property={rec.get('property')} obligation={rec.get('obligation')}")
+    if isinstance(r, dict) and r.get('gamma') is not None:
+        from .rsreal import RustReal
+        rr = RustReal(root)
+        try:
+            out = rr.run(['verify ' + ' '.join((r.get(k) or '-') for k in ('gamma', 'claim', 'proof'))])[0]
+        finally:
+            rr.close()
+        print(f"  real checker on the recorded files: {out[0]} {out[1]}")
+        return 1 if out[0] != 'OK' else 0
+    if isinstance(r, dict) and r.get('expr') and 'prelude' in r:
+        real = rp.run_real([{'expr': r['expr'], 'setup': r.get('setup', '')}], prelude=r['prelude'], root=root)[0]
+        was = r.get('real') or {}
+        print(f"  expression: {r['expr'][:200]}")
+        print(f"  recorded : {str(was.get('repr') if was.get('ok') else was.get('exc'))[:300]}")
+        print(f"  now      : {str(real.get('repr') if real.get('ok') else real.get('exc'))[:300]}")
+        same = (real.get('ok') == was.get('ok')) and ((real.get('repr') == was.get('repr')) if real.get('ok') else (real.get('exc') == was.get('exc')))
+        print('  the recorded failing outcome is reproduced' if same else '  the outcome differs from the recorded one')
+        return 1 if same else 0
+    print('  the file carries no executable witness (no-failing-input-found): solver output follows')
+    print('  ' + json.dumps(rec.get('solver'))[:1500])
+    return 2
